@@ -59,7 +59,7 @@ def match_close(s, i, op='{', cl='}'):
 
 def fn_body(src, name):
     """body of the definition of function `name` (possibly qualified) in comment-free src"""
-    for m in re.finditer(r'\b(?:Value|void)\s+(?:\w+::)*' + re.escape(name) + r'\s*\(', src):
+    for m in re.finditer(r'\b(?:Value|void|bool)\s+(?:\w+::)*' + re.escape(name) + r'\s*\(', src):
         p = match_close(src, m.end() - 1, '(', ')')
         if p < 0:
             continue
@@ -126,6 +126,176 @@ def returning_ifs(c):
     return res
 
 
+def depth_at(c, pos):
+    """brace depth of position pos in compact text c (string-literal aware)"""
+    d = 0
+    i = 0
+    while i < pos:
+        ch = c[i]
+        if ch == '"':
+            i += 1
+            while i < pos and c[i] != '"':
+                i += 2 if c[i] == '\\' else 1
+        elif ch == '{':
+            d += 1
+        elif ch == '}':
+            d -= 1
+        i += 1
+    return d
+
+
+# ---- dominance: does every recognised refusal check precede every state-changing action of the handler? ----
+# The text before the end of the last recognised check must be free of effects.  An effect is
+#   * a call whose name is not a pure accessor, made on / handed an object that is not message-local, or
+#   * an assignment to a member or qualified name.
+# Message-local = `params`, values read out of message-local values with a pure accessor, and objects allocated
+# with `new` (or default-constructed) inside the handler.  Anything the scanner is unsure about counts as an effect.
+PURE_CALL = re.compile(r'^(Get\w*|Is\w*|Has\w*|Contains|CanAccessObject|get|size|empty|count|find|begin|end|'
+                       r'static_cast|dynamic_cast|static_pointer_cast|dynamic_pointer_cast)$')
+KEYWORDS = {'if', 'for', 'while', 'switch', 'return', 'catch', 'sizeof', 'else', 'do'}
+LOCK_TYPES = {'ObjectLock', 'ObjectNameLock'}
+IDENT = r'[A-Za-z_]\w*'
+
+
+def _chain_root(c, i):
+    """i = index of the last character of the receiver expression of a member / qualified call;
+    -> leftmost identifier of the access chain  a->b(x).c::d"""
+    j = i
+    start = None
+    while j >= 0:
+        # postfix groups  (...)  [...]  <...>
+        while j >= 0 and c[j] in ')]>':
+            if c[j] == '>' and j >= 1 and c[j - 1] == '-':
+                break
+            cl = c[j]
+            op = {')': '(', ']': '[', '>': '<'}[cl]
+            d = 0
+            while j >= 0:
+                if c[j] == cl:
+                    d += 1
+                elif c[j] == op:
+                    d -= 1
+                    if d == 0:
+                        break
+                j -= 1
+            j -= 1
+        k = j
+        while j >= 0 and (c[j].isalnum() or c[j] == '_'):
+            j -= 1
+        if j == k:
+            break                       # no identifier here: not a chain we understand
+        start = j + 1
+        if j >= 1 and c[j - 1:j + 1] in ('->', '::'):
+            j -= 2
+        elif j >= 0 and c[j] == '.':
+            j -= 1
+        else:
+            break
+    if start is None:
+        return None
+    m = re.match(IDENT, c[start:i + 1])
+    return m.group(0) if m else None
+
+
+def _expr_root(e):
+    """leftmost identifier of an expression like  params->Get("cr")  /  new Foo()  /  literals"""
+    e = e.strip()
+    if e.startswith('new ') or re.fullmatch(r'-?\d+(?:\.\d+)?[uUlLfF]*|true|false|nullptr|Empty|"(?:[^"\\]|\\.)*"', e):
+        return '#fresh'
+    m = re.match(r'(?:\(\w+\))?(' + IDENT + r')', e)
+    return m.group(1) if m else None
+
+
+def _rhs_pure_from(e, locs):
+    """is e a value read out of a message-local value (or freshly allocated)?"""
+    r = _expr_root(e)
+    if r == '#fresh':
+        return True
+    if r is None or r not in locs:
+        return False
+    # every call in e must be a pure accessor
+    for m in re.finditer(r'(' + IDENT + r')(?:<[^<>()]*>)?\(', e):
+        if not PURE_CALL.match(m.group(1)):
+            return False
+    return True
+
+
+def message_locals(pfx):
+    assigns = {}
+    for m in re.finditer(r'(?<![\w>.:\]])(' + IDENT + r')=(?!=)([^;]*);', pfx):
+        assigns.setdefault(m.group(1), []).append(m.group(2))
+    for m in re.finditer(r'(?<![\w>.:])(?:auto|[\w:]+(?:<[^;(){}]*>)?) (' + IDENT + r')\(([^;]*)\);', pfx):
+        if m.group(0).split(' ')[0] not in LOCK_TYPES | {'return', 'new', 'else'}:
+            assigns.setdefault(m.group(1), []).append(m.group(2))
+    for m in re.finditer(r'for\((?:const )?[\w:]+(?:<[^;(){}]*>)?[&*]? ?(' + IDENT + r'):(' + IDENT + r')\)', pfx):
+        assigns.setdefault(m.group(1), []).append(m.group(2))
+    uninit = set(m.group(1) for m in re.finditer(r'(?<=[;{}])(?!return )(?:[\w:]+(?:<[^;(){}]*>)?) (' + IDENT + r');', pfx))
+    locs = {'params'}
+    changed = True
+    while changed:
+        changed = False
+        for v in set(assigns) | uninit:
+            if v in locs:
+                continue
+            if all(_rhs_pure_from(e, locs) for e in assigns.get(v, [])):
+                locs.add(v)
+                changed = True
+    return locs
+
+
+def effects_in(pfx):
+    """-> list of offending snippets in the compact text pfx (empty = free of effects)"""
+    bad = []
+    locs = message_locals(pfx)
+    for m in re.finditer(r'(' + IDENT + r')(?:<[^<>()]*>)?\(', pfx):
+        name, i = m.group(1), m.start()
+        if name in KEYWORDS:
+            continue
+        before = pfx[:i]
+        if before.endswith('->') or before.endswith('.') or before.endswith('::'):
+            k = len(before) - (1 if before.endswith('.') else 2)
+            root = _chain_root(pfx, k - 1)
+            if PURE_CALL.match(name):
+                continue
+            if root == 'std' and name in ('move', 'max', 'min', 'to_string'):
+                continue
+            if root in locs and not before.endswith('::'):
+                continue
+            bad.append(pfx[max(0, i - 25):m.end()])
+            continue
+        mm = re.search(r'([\w:<>*&]+) $', before)
+        if mm:
+            prev = mm.group(1)
+            if prev == 'new':
+                continue
+            if prev not in ('return', 'else'):
+                # declaration  T name(args): a lock, or a local initialised from args (classified by message_locals)
+                continue
+        if PURE_CALL.match(name):
+            continue
+        if name == 'Deserialize':
+            a0 = re.match(r'\((' + IDENT + r'),', pfx[m.end() - 1:])
+            if a0 and a0.group(1) in locs:
+                continue
+        bad.append(pfx[max(0, i - 25):m.end()])
+    # assignments to members / qualified names
+    for m in re.finditer(r'((?:' + IDENT + r')(?:(?:->|\.|::)' + IDENT + r')+)=(?!=)', pfx):
+        root = re.match(IDENT, m.group(1)).group(0)
+        if root in locs and '::' not in m.group(1):
+            continue
+        if pfx[max(0, m.start() - 1):m.start()] in ('!', '<', '>', '='):
+            continue
+        bad.append(m.group(0))
+    return bad
+
+
+def check_end(c, pos):
+    """end of the refusal statement  if(...){?return Empty;}?  that starts at pos"""
+    p = match_close(c, c.index('(', pos), '(', ')')
+    mm = re.match(r'\{?return ?(?:Empty)?;\}?', c[p + 1:])
+    return p + 1 + (mm.end() if mm else 0)
+
+
 W = r'[A-Za-z_]\w*'
 FZ = r'origin->FromZone'
 LOCAL = r'Zone::GetLocalZone\(\)'
@@ -158,11 +328,14 @@ def origin_cond(cond, c, epvar):
 
 
 def analyse(method, fname, body, all_src, log):
-    """-> (ep:bool, pattern:str, flag:str)"""
+    """-> (ep:bool, pattern:str, flag:str, dom:str)
+    dom: "all" = every recognised refusal check precedes every effect of the handler; "origin_only" = that holds for the
+    endpoint/origin check but not for the accept flag; "no_check" = the handler has no refusal check at all;
+    "unknown" = could not be established"""
     c = compact(drop_logs(body))
     # ---- trivial handler
     if re.fullmatch(r'return ?Empty;', c):
-        return (False, 'none', 'none')
+        return (False, 'none', 'none', 'no_check')
     # ---- endpoint variable
     m = re.search(r'(?:Endpoint::Ptr ?|auto ?)?(' + W + r')(?:=|\()(?:origin->FromClient|(' + W + r'))->GetEndpoint\(\)\)?;', c)
     epvar = m.group(1) if m else None
@@ -173,34 +346,44 @@ def analyse(method, fname, body, all_src, log):
     ep = False
     pats = []
     flag = 'none'
-    special_exec = method == 'event::ExecuteCommand' or 'fromParentZone' in c or re.search(r'->GetParent\(\)', c) and 'originZone' in c
     if method == 'event::ExecuteCommand':
         return analyse_execute(c, all_src, log)
     # positive guard (icinga::Hello):  if (origin) { client = origin->FromClient; if (client) { ep = client->GetEndpoint(); if (ep) { ... } } } return Empty;
     mg = re.fullmatch(r'if\(origin\)\{auto ?(' + W + r')\(origin->FromClient\);if\(\1\)\{auto ?(' + W + r')\(\1->GetEndpoint\(\)\);if\(\2\)\{.*\}\}\}return ?Empty;', c)
     if mg:
-        return (True, 'none', 'none')
+        return (True, 'none', 'none', 'all')      # everything the handler does sits inside the innermost guard
+    origin_ends = []       # end positions of the endpoint / origin refusals
+    flag_ends = []
+    nested = False
     for pos, cond in returning_ifs(c):
-        parts = None
+        is_check = False
+        kind = None
         if epvar and cond == '!' + epvar:
             ep = True
-            continue
-        mm = re.fullmatch(r'!(?:' + (re.escape(epvar) if epvar else 'NOVAR') + r'|origin->FromClient->GetEndpoint\(\))\|\|\((.*)\)', cond)
-        if mm:
-            ep = True
-            cond = mm.group(1)
-        if cond == '!origin->FromClient->GetEndpoint()':
-            ep = True
-            continue
-        p = origin_cond(cond, c, epvar)
-        if p:
-            pats.append(p)
-            continue
-        if re.fullmatch(r'!' + W + r'->GetAcceptConfig\(\)', cond):
-            flag = 'accept_config' if flag == 'none' else 'unrecognised'
-            continue
-        if re.search(r'GetAccept', cond):
-            flag = 'unrecognised'
+            is_check, kind = True, 'o'
+        else:
+            mm = re.fullmatch(r'!(?:' + (re.escape(epvar) if epvar else 'NOVAR') + r'|origin->FromClient->GetEndpoint\(\))\|\|\((.*)\)', cond)
+            if mm:
+                ep = True
+                cond = mm.group(1)
+                is_check, kind = True, 'o'
+            if cond == '!origin->FromClient->GetEndpoint()':
+                ep = True
+                is_check, kind = True, 'o'
+            else:
+                pp = origin_cond(cond, c, epvar)
+                if pp:
+                    pats.append(pp)
+                    is_check, kind = True, 'o'
+                elif re.fullmatch(r'!' + W + r'->GetAcceptConfig\(\)', cond):
+                    flag = 'accept_config' if flag == 'none' else 'unrecognised'
+                    is_check, kind = True, 'f'
+                elif re.search(r'GetAccept', cond):
+                    flag = 'unrecognised'
+        if is_check:
+            if depth_at(c, pos) != 0 or (pos > 0 and c[pos - 1] not in ';{}'):
+                nested = True          # a refusal inside some other block / under another condition does not guard the rest
+            (origin_ends if kind == 'o' else flag_ends).append(check_end(c, pos))
     # a mention of an accept flag / origin zone outside a recognised refusal is not understood
     if 'GetAcceptConfig' in c and flag != 'accept_config':
         flag = 'unrecognised'
@@ -213,16 +396,33 @@ def analyse(method, fname, body, all_src, log):
         pat = pats[0]
     else:
         pat = 'unrecognised'
-    if 'GetEndpoint()' in c and not ep and pat != 'none' and False:
+    if nested:
+        log.append('C13: %s: a refusal check sits inside a nested block' % method)
         pat = 'unrecognised'
-    return (ep, pat, flag)
+    # ---- dominance
+    if not origin_ends and not flag_ends:
+        dom = 'no_check'
+    else:
+        dom = 'unknown'
+        try:
+            eo = effects_in(c[:max(origin_ends)]) if origin_ends else []
+            ef = effects_in(c[:max(flag_ends)]) if flag_ends else []
+            if not eo and not ef:
+                dom = 'all'
+            elif not eo:
+                dom = 'origin_only'
+            if eo or ef:
+                log.append('C13: %s: effect before a refusal check: %s' % (method, '; '.join((eo + ef)[:3])))
+        except Exception as ex:
+            log.append('C13: dominance analysis of %s failed: %r' % (method, ex))
+    return (ep, pat, flag, dom)
 
 
 def analyse_execute(c, all_src, log):
     """event::ExecuteCommand: two-stage check (handler, then ExecuteCheckFromQueue)"""
     m = re.search(r'if\(!origin->IsLocal\(\)\)\{', c)
     if not m:
-        return (False, 'unrecognised', 'unrecognised')
+        return (False, 'unrecognised', 'unrecognised', 'unknown')
     e = match_close(c, m.end() - 1)
     blk = c[m.end():e]
     rx = (r'Endpoint::Ptr ?(?P<e>' + W + r')=origin->FromClient->GetEndpoint\(\);'
@@ -252,10 +452,119 @@ def analyse_execute(c, all_src, log):
             s = match_close(qc, fm.end() - 1)
             if s > 0 and qc[:s].rstrip('}').endswith('return;'):
                 flag = 'accept_commands'
+    # dominance: stage 1 precedes everything in the handler (ok_pre: nothing but the listener lookup before it, and it sits
+    # at the top level); stage 2 precedes everything in ExecuteCheckFromQueue; the accept_commands refusal too?
+    dom = 'unknown'
+    if ok1 and ok_pre and depth_at(c, m.start()) == 0 and q is not None and ok2:
+        try:
+            qc = compact(drop_logs(q))
+            e2 = effects_in(qc[:check_end(qc, mm.start())]) + ([] if depth_at(qc, mm.start()) == 0 else ['nested stage 2'])
+            ef = (effects_in(qc[:fm.start()]) + ([] if depth_at(qc, fm.start()) == 0 else ['nested flag check'])) if flag == 'accept_commands' else ['?']
+            dom = 'all' if (not e2 and not ef) else ('origin_only' if not e2 else 'unknown')
+            if e2 or ef:
+                log.append('C13: event::ExecuteCommand: effect before a refusal check in ExecuteCheckFromQueue: %s' % '; '.join((e2 + ef)[:3]))
+        except Exception as ex:
+            log.append('C13: dominance analysis of event::ExecuteCommand failed: %r' % (ex,))
     if ok1 and ok_pre and ok_enq and ok2:
-        return (True, 'local_or_parent_then_origin', flag)
+        return (True, 'local_or_parent_then_origin', flag, dom)
     log.append('C13: ExecuteCommand not recognised (stage1=%s pre=%s enqueue=%s stage2=%s)' % (ok1, ok_pre, ok_enq, ok2))
-    return (ok1, 'unrecognised', flag)
+    return (ok1, 'unrecognised', flag, dom)
+
+
+BUILD = (r'(?:double ?' + W + r'=Utility::GetTime\(\);|Dictionary::Ptr ?' + W + r'=new ?Dictionary\(\);|' + W + r'->Set\("[a-z_]+",[^;]*\);|'
+         r'if\(params->Contains\("service"\)\)' + W + r'->Set\("service",params->Get\("service"\)\);)*')
+
+
+def forward_shape(c, log):
+    """ExecuteCommandAPIHandler after the stage-1 block: the "endpoint" branch.  -> rule name or None"""
+    m = re.search(r'if\(!origin->IsLocal\(\)\)\{', c)
+    if not m:
+        return None
+    e = match_close(c, m.end() - 1)
+    rest = c[e + 1:]
+    m1 = re.match(r'String ?(' + W + r')=params->Get\("source"\);if\(params->Contains\("endpoint"\)\)\{', rest)
+    if not m1:
+        return None
+    b_end = match_close(rest, m1.end() - 1)
+    if rest[b_end + 1:] != 'EnqueueCheck(origin,params);return Empty;':
+        return None
+    body = rest[m1.end():b_end]
+    m2 = re.match(r'Endpoint::Ptr ?(?P<E>' + W + r')=Endpoint::GetByName\(params->Get\("endpoint"\)\);if\(!(?P=E)\)\{?return ?Empty;\}?'
+                  r'if\((?P=E)!=Endpoint::GetLocalEndpoint\(\)\)\{', body)
+    if not m2 or match_close(body, m2.end() - 1) != len(body) - 1:
+        return None
+    E = m2.group('E')
+    inner = body[m2.end():-1]
+    m3 = re.match(r'Zone::Ptr ?(?P<EZ>' + W + r')=' + E + r'->GetZone\(\);Zone::Ptr ?(?P<LZ>' + W + r')=' + LOCAL + r';'
+                  r'if\(!(?P=EZ)->IsChildOf\((?P=LZ)\)\)\{?return ?Empty;\}?'
+                  r'for\(const ?Zone::Ptr ?& ?(?P<Z>' + W + r'):ConfigType::GetObjectsByType<Zone>\(\)\)\{', inner)
+    if not m3:
+        return None
+    EZ, LZ, Z = m3.group('EZ'), m3.group('LZ'), m3.group('Z')
+    l_end = match_close(inner, m3.end() - 1)
+    loop = inner[m3.end():l_end]
+    tail = inner[l_end + 1:]
+    if not re.fullmatch(BUILD + r'listener->RelayMessage\(origin,' + EZ + r',' + W + r',true\);return ?Empty;', tail):
+        return None
+    m4 = re.match(r'if\((?:' + Z + r'->GetParent\(\)==' + LZ + r'|' + LZ + r'==' + Z + r'->GetParent\(\))&&' + Z + r'->CanAccessObject\(' + EZ + r'\)\)\{', loop)
+    if not m4 or match_close(loop, m4.end() - 1) != len(loop) - 1:
+        return None
+    zb = loop[m4.end():-1]
+    reply = BUILD + r'listener->RelayMessage\(nullptr,nullptr,' + W + r',true\);return ?Empty;'
+    rx = (r'std::set<Endpoint::Ptr> ?(?P<ES>' + W + r')=' + Z + r'->GetEndpoints\(\);'
+          r'for\(const ?Endpoint::Ptr ?& ?(?P<CE>' + W + r'):(?P=ES)\)\{if\(!\((?P=CE)->GetCapabilities\(\)&\(uint_fast64_t\)ApiCapabilities::ExecuteArbitraryCommand\)\)\{' + reply + r'\}\}'
+          r'Checkable::Ptr ?(?P<CK>' + W + r');Host::Ptr ?(?P<H>' + W + r')=Host::GetByName\(params->Get\("host"\)\);if\(!(?P=H)\)\{?return ?Empty;\}?'
+          r'if\(params->Contains\("service"\)\)(?P=CK)=(?P=H)->GetServiceByShortName\(params->Get\("service"\)\);else ?(?P=CK)=(?P=H);'
+          r'if\(!(?P=CK)\)\{[^{}]*return ?Empty;\}'
+          r'if\(!' + Z + r'->CanAccessObject\((?P=CK)\)&&' + Z + r'!=' + EZ + r'\)\{' + reply + r'\}')
+    if not re.fullmatch(rx, zb):
+        return None
+    if 'GetAcceptCommands' in c:
+        return None
+    return 'target_in_subtree_then_relay_to_target_zone'
+
+
+def relay_shape(src, log):
+    """ApiListener::RelayMessageOne / SyncRelayMessage -> rule name or None"""
+    one = fn_body(src, 'RelayMessageOne')
+    syn = fn_body(src, 'SyncRelayMessage')
+    if one is None or syn is None:
+        return None
+    o = compact(drop_logs(one))
+    y = compact(drop_logs(syn))
+    pieces = [
+        r'if\(!(?P<T>' + W + r')->GetGlobal\(\)&&(?P=T)!=(?P<L>' + W + r')&&(?P=T)!=(?P=L)->GetParent\(\)&&(?P=T)->GetParent\(\)!=(?P=L)\)\{?return ?true;\}?',
+        r'if\((?P<TE>' + W + r')==(?P<LE>' + W + r')\)continue;',
+        r'if\(!(?P=TE)->GetConnected\(\)\)\{',
+        r'if\((?P<R>' + W + r')&&(?P<CZ>' + W + r')!=(?P=L)\)\{' + W + r'\.push_back\((?P=TE)\);continue;\}',
+        r'if\(origin&&origin->FromClient&&(?P=TE)==origin->FromClient->GetEndpoint\(\)\)\{' + W + r'\.push_back\((?P=TE)\);continue;\}',
+        r'if\(origin&&origin->FromZone&&(?P=CZ)==origin->FromZone\)\{' + W + r'\.push_back\((?P=TE)\);continue;\}',
+        r'bool ?(?P<M>' + W + r')=\((?P<ZM>' + W + r')==(?P=LE)\);if\(!(?P=M)&&(?P=TE)!=(?P=ZM)\)\{' + W + r'\.push_back\((?P=TE)\);continue;\}',
+        r'(?P=R)=true;SyncSendMessage\((?P=TE),' + W + r'\);',
+    ]
+    rx = '.*?'.join(pieces)
+    if not re.search(rx, o):
+        return None
+    if len(re.findall(r'SyncSendMessage\(', o)) != 1:
+        return None
+    if not re.search(r'Zone::Ptr ?(?P<TZ>' + W + r');if\((?P<S>' + W + r')\)\{if\((?P=S)->GetReflectionType\(\)==Zone::TypeInstance\)(?P=TZ)=static_pointer_cast<Zone>\((?P=S)\);'
+                     r'else ?(?P=TZ)=static_pointer_cast<Zone>\((?P=S)->GetZone\(\)\);\}if\(!(?P=TZ)\)(?P=TZ)=' + LOCAL + r';.*?'
+                     r'bool ?(?P<NL>' + W + r')=!RelayMessageOne\((?P=TZ),origin,' + W + r',' + W + r'\);'
+                     r'for\(const ?Zone::Ptr ?& ?(?P<Z>' + W + r'):(?P=TZ)->GetAllParentsRaw\(\)\)\{if\(!RelayMessageOne\((?P=Z),origin,', y):
+        return None
+    return 'adjacent_zones_not_back_master_only'
+
+
+def update_object_zone_rule(c):
+    """config::UpdateObject: what the handler does with params.zone -> rule name or None"""
+    m = re.search(r'String ?(' + W + r')=params->Get\("zone"\);', c)
+    if not m:
+        return 'zone_not_read' if '"zone"' not in c else None
+    v = m.group(1)
+    uses = len(re.findall(r'(?<![\w])' + re.escape(v) + r'(?![\w])', c))
+    if re.search(r'if\(!' + v + r'\.IsEmpty\(\)&&!Zone::GetByName\(' + v + r'\)\)\{?return ?Empty;\}?', c) and uses == 3 and c.count('"zone"') == 1:
+        return 'refuse_unknown_nonempty_zone_otherwise_unused'
+    return None
 
 
 def run(rd, emit, log, enum_values, ti_default):
@@ -267,30 +576,61 @@ def run(rd, emit, log, enum_values, ti_default):
     files.sort()
     srcs = {}
     regs = []
+    raw_macro_uses = 0          # every use of the registration macro, parsed or not
+    other_registrations = 0     # direct use of the registry / constructor outside the macro
+    hdrs = []
+    for root, _, fns in os.walk(os.path.join(REPO, 'lib')):
+        for fn in fns:
+            if fn.endswith('.hpp') or fn.endswith('.ti'):
+                hdrs.append(os.path.relpath(os.path.join(root, fn), REPO))
+    for f in sorted(hdrs):
+        if f.endswith('remote/apifunction.hpp'):
+            continue
+        t = strip_comments(rd(f))
+        raw_macro_uses += len(re.findall(r'\bREGISTER_APIFUNCTION\s*\(', t))
+        other_registrations += len(re.findall(r'ApiFunctionRegistry::GetInstance\(\)\s*->\s*Register\s*\(|new\s+ApiFunction\s*\(', t))
     for f in files:
         t = rd(f)
+        if 'ApiFunction' in t and not f.endswith('remote/apifunction.cpp'):
+            tt = strip_comments(t)
+            other_registrations += len(re.findall(r'ApiFunctionRegistry::GetInstance\(\)\s*->\s*Register\s*\(|new\s+ApiFunction\s*\(', tt))
         if 'REGISTER_APIFUNCTION' not in t and 'ExecuteCheckFromQueue' not in t:
             continue
         t = strip_comments(t)
         srcs[f] = t
+        raw_macro_uses += len(re.findall(r'\bREGISTER_APIFUNCTION\s*\(', t))
         for m in re.finditer(r'^\s*REGISTER_APIFUNCTION\s*\(\s*(\w+)\s*,\s*(\w+)\s*,\s*&\s*((?:\w+::)*)(\w+)\s*\)\s*;', t, re.M):
-            regs.append((m.group(2) + '::' + m.group(1), m.group(4), f))
+            regs.append((m.group(2) + '::' + m.group(1), m.group(4), f, m.group(3)))
     all_src = '\n'.join(srcs.values())
     rows = []
-    for method, fname, f in sorted(regs):
+    doms = []
+    fwd_rule = None
+    uo_rule = None
+    for method, fname, f, qual in sorted(regs):
         body = fn_body(srcs[f], fname) or fn_body(all_src, fname)
         if body is None:
             log.append('C13: handler %s of %s not found' % (fname, method))
             rows.append((method, False, 'unrecognised', 'unrecognised'))
+            doms.append((method, 'unknown'))
             continue
         try:
-            ep, pat, flag = analyse(method, fname, body, all_src, log)
+            ep, pat, flag, dom = analyse(method, fname, body, all_src, log)
         except Exception as ex:   # never let the translator crash a check
             log.append('C13: analysing %s failed: %r' % (method, ex))
-            ep, pat, flag = False, 'unrecognised', 'unrecognised'
+            ep, pat, flag, dom = False, 'unrecognised', 'unrecognised', 'unknown'
         if pat == 'unrecognised' or flag == 'unrecognised':
             log.append('C13: %s: check not recognised (ep=%s pattern=%s flag=%s)' % (method, ep, pat, flag))
+        if dom not in ('all', 'no_check'):
+            log.append('C13: %s: refusal checks not shown to precede every effect (%s) - behaviour compared by the run only' % (method, dom))
         rows.append((method, ep, pat, flag))
+        doms.append((method, dom))
+        try:
+            if method == 'event::ExecuteCommand':
+                fwd_rule = forward_shape(compact(drop_logs(body)), log)
+            if method == 'config::UpdateObject':
+                uo_rule = update_object_zone_rule(compact(drop_logs(body)))
+        except Exception as ex:
+            log.append('C13: shape analysis of %s failed: %r' % (method, ex))
     # a few single-spot shapes, logged only (their behaviour is covered by the correspondence run)
     shapes = {}
     z = compact(strip_comments(rd('lib/remote/zone.cpp')))
@@ -316,10 +656,20 @@ def run(rd, emit, log, enum_values, ti_default):
         if origin_rule and len(re.findall(r'->FromZone=', mc)) != 2:
             origin_rule = None
     shapes['MessageHandler origin'] = origin_rule is not None
+    shapes['Zone parent not global'] = re.search(
+        r'void ?Zone::OnAllConfigLoaded\(\)\{[^}]*m_Parent=Zone::GetByName\(GetParentRaw\(\)\);if\(m_Parent&&m_Parent->IsGlobal\(\)\)BOOST_THROW_EXCEPTION\(', z) is not None
     j = compact(strip_comments(rd('lib/remote/jsonrpcconnection.cpp')))
     shapes['ctor endpoint iff authenticated'] = 'if(authenticated)m_Endpoint=Endpoint::GetByName(identity);' in j
     e = compact(strip_comments(rd('lib/remote/endpoint.cpp')))
     shapes['Endpoint requires zone'] = re.search(r'void ?Endpoint::OnAllConfigLoaded\(\)\{[^}]*if\(!m_Zone\)BOOST_THROW_EXCEPTION\(', e) is not None
+    relay_rule = None
+    try:
+        relay_rule = relay_shape(strip_comments(rd('lib/remote/apilistener.cpp')), log)
+    except Exception as ex:
+        log.append('C13: relay shape analysis failed: %r' % (ex,))
+    shapes['ExecuteCommand forwarding branch'] = fwd_rule is not None
+    shapes['RelayMessageOne / SyncRelayMessage'] = relay_rule is not None
+    shapes['config::UpdateObject use of params.zone'] = uo_rule is not None
     for k, v in shapes.items():
         if not v:
             log.append('C13: shape not recognised (correspondence only): ' + k)
@@ -328,7 +678,23 @@ def run(rd, emit, log, enum_values, ti_default):
     body += 'Definition f_mz_handlers : list (string * (bool * string * string)) := [\n'
     body += ';\n'.join('  ("%s", (%s, "%s", "%s"))' % (m, 'true' if ep else 'false', p, fl) for m, ep, p, fl in rows)
     body += '\n].\n\n'
+    body += '(* (method, (handler function, source file)) for every REGISTER_APIFUNCTION that could be parsed *)\n'
+    body += 'Definition f_mz_registrations : list (string * (string * string)) := [\n'
+    body += ';\n'.join('  ("%s", ("%s%s", "%s"))' % (m, q, fn, f) for m, fn, f, q in sorted(regs))
+    body += '\n].\n\n'
+    body += '(* uses of the registration macro in lib/ (parsed or not) and registrations that bypass it *)\n'
+    body += 'Definition f_mz_macro_uses : nat := %d.\n' % raw_macro_uses
+    body += 'Definition f_mz_other_registrations : nat := %d.\n\n' % other_registrations
+    body += '(* do the recognised refusal checks of the handler precede everything it does?  all / origin_only / no_check / unknown *)\n'
+    body += 'Definition f_mz_dominance : list (string * string) := [\n'
+    body += ';\n'.join('  ("%s", "%s")' % (m, d) for m, d in doms)
+    body += '\n].\n\n'
     body += 'Definition f_mz_registered : nat := %d.\n' % len(regs)
+    opt = lambda v: ('Some "%s"' % v) if v else 'None'
+    body += '(* the "endpoint" branch of event::ExecuteCommand, RelayMessageOne/SyncRelayMessage, params.zone of config::UpdateObject *)\n'
+    body += 'Definition f_mz_exec_forward_rule : option string := %s.\n' % opt(fwd_rule)
+    body += 'Definition f_mz_relay_rule : option string := %s.\n' % opt(relay_rule)
+    body += 'Definition f_mz_update_object_zone_rule : option string := %s.\n' % opt(uo_rule)
     body += '(* which claimed originZone MessageHandler honours; None = shape not recognised (compared by the run only) *)\n'
     body += 'Definition f_mz_origin_rule : option string := %s.\n' % ('Some "%s"' % origin_rule if origin_rule else 'None')
     for k, v in shapes.items():
